@@ -59,6 +59,8 @@ type Exec struct {
 	Livelock      bool
 	lastProgress  int
 	timerExpiries int
+	unbuf         map[uintptr]*unbufState
+	clock         time.Duration
 	Deadlock      bool
 	Parked        []string // description of threads parked at the end
 	Panic         string
@@ -393,6 +395,7 @@ func TimerFire() bool {
 		return false
 	}
 	x.timerExpiries++
+	x.clock += time.Hour
 	x.lastProgress = x.Steps
 	return true
 }
@@ -414,6 +417,60 @@ func WithDeadline(parent context.Context, t time.Time) (context.Context, context
 		return context.WithDeadline(parent, t)
 	}
 	return TimeoutCtxHook(parent)
+}
+
+// ---- the clock: inside a controlled execution time stands still except when a timer event happens ----
+
+var clockBase = time.Date(2030, 1, 1, 0, 0, 0, 0, time.UTC)
+
+// Now replaces time.Now in instrumented code.
+func Now() time.Time {
+	if X == nil {
+		return time.Now()
+	}
+	return clockBase.Add(X.clock)
+}
+
+func Since(t time.Time) time.Duration { return Now().Sub(t) }
+func Until(t time.Time) time.Duration { return t.Sub(Now()) }
+
+// AdvanceClock is called by timer events of the environment (accept-deadline expiry, context expiry, ...).
+func AdvanceClock(d time.Duration) {
+	if X != nil {
+		X.clock += d
+	}
+}
+
+// AfterFunc replaces context.AfterFunc: f runs in a controlled thread of its own once ctx is done, unless stopped.
+func AfterFunc(ctx context.Context, f func()) (stop func() bool) {
+	if X == nil {
+		return context.AfterFunc(ctx, f)
+	}
+	stopped, started := false, false
+	done := func() bool {
+		select {
+		case <-ctx.Done():
+			return true
+		default:
+			return false
+		}
+	}
+	GoDaemon("afterfunc", func() {
+		Yield("afterfunc", "ctx", func() bool { return stopped || done() })
+		if stopped {
+			return
+		}
+		started = true
+		Acquire(CtxHB)
+		f()
+	})
+	return func() bool {
+		if started || stopped {
+			return false
+		}
+		stopped = true
+		return true
+	}
 }
 
 // Sleep replaces time.Sleep: time passing is a scheduling point, nothing more.
